@@ -24,7 +24,7 @@ document element is refused by `read_event`, which keeps the nesting depth, sinc
 normalises the line ends of every text piece and CDATA section before references are resolved, since d365e05;
 attributes: `SerializeContent::attributes` / `start_of` / `attr_value` of `xml/ser.rs`, `Deserializer::attribute` of
 `xml/de.rs` over quick-xml's attribute iterator, since 680006e; `GetBucketLocationOutput` is read from exactly one
-`LocationConstraint` element, since d00ca17; comments: quick-xml's `check_comments`, since ce2599c; `]]>` in a text event, since fc97754).
+`LocationConstraint` element, since d00ca17; comments: quick-xml's `check_comments`, since ce2599c; `]]>` in a text event, since fc97754; the target of a processing instruction, since 66c0f09).
 The lookahead state `peeked` / `next_slot` of `Deserializer` is the head of the remaining event list here:
 `peek_event` = look at the head, `consume_peeked` / `next_event` = drop it; `Empty` is expanded by `deEvents`.
 The field `start` of `Deserializer` (the start tag that was entered last, since 680006e) is read by generated code only
@@ -770,7 +770,7 @@ inductive QEv where
   | empty (name rest : Bytes)
   | text (raw : Bytes)
   | cdata (content : Bytes)
-  | comment | decl | pi | doctype
+  | comment | decl | pi (content : Bytes) | doctype   -- of a PI the text between `<?` and `?>` is kept: `read_event` looks at its target
   | err
   deriving DecidableEq, Repr
 
@@ -867,7 +867,7 @@ def markup (inp : Bytes) (stack : List Bytes) : Option (QEv × Bytes × List Byt
       if buf.length > 1 then
         let content := (buf.drop 1).dropLast
         if startsWith [120, 109, 108] content && (content.length = 3 || (content.drop 3).head?.any isWs)
-        then some (.decl, rest, stack) else some (.pi, rest, stack)
+        then some (.decl, rest, stack) else some (.pi content, rest, stack)
       else none
   | _ =>
     match elementEnd 0 inp with
@@ -901,6 +901,20 @@ def stripBom (b : Bytes) : Bytes :=
 
 def tokenize (doc : Bytes) : List QEv := tokLoop (doc.length + 1) (stripBom doc) []
 
+/-- the closure `start` of `is_xml_name` (`xml/de.rs`): `:` `_` ASCII letters, and every byte outside ASCII -/
+def isNameStartB (b : UInt8) : Bool :=
+  b = 58 || b = 95 || (65 ≤ b.toNat && b.toNat ≤ 90) || (97 ≤ b.toNat && b.toNat ≤ 122) || b.toNat ≥ 128
+
+/-- `is_xml_name` of `xml/de.rs`: a start byte, then start bytes, `-`, `.` and ASCII digits -/
+def isXmlName : Bytes → Bool
+  | [] => false
+  | c :: cs => isNameStartB c && cs.all fun b => isNameStartB b || b = 45 || b = 46 || (48 ≤ b.toNat && b.toNat ≤ 57)
+
+/-- the `Event::PI` arm of `read_event` (since 66c0f09) on the text between `<?` and `?>`: `x.target()` is its first
+word (`name_len`: up to the first white space); it must be a name and not `xml` in any case -/
+def piTargetOk (content : Bytes) : Bool :=
+  isXmlName (nameOf content) && !((nameOf content).map toLowerAscii == [120, 109, 108])
+
 /-- `x.windows(3).any(|w| w == b"]]>")` on a text event: does some suffix begin with `]]>`? -/
 def hasCdataEnd : Bytes → Bool
   | [] => false
@@ -912,7 +926,8 @@ saturating, `Empty` ±0). Outside the document element (`depth == 0`) character 
 (space, tab, CR, LF) and every CDATA section make `read_event` return `DeError::InvalidContent` (since d51737b;
 before, `expect_start` / `expect_eof` / `for_each_element` skipped them: finding F-xml-6, fixed). An error ends
 the run: every caller propagates it. A text event that holds `]]>` — which XML 1.0 allows only as the end of a CDATA
-section — is refused with `DeError::InvalidContent` as well (since fc97754; before, it passed: finding
+section — and a processing instruction whose target is no name or is `xml` in any case (since 66c0f09; finding
+`xml-illformed-accepted:pi-target`, fixed) are refused with `DeError::InvalidContent` as well (since fc97754; before, it passed: finding
 `xml-illformed-accepted:cdata-end`, fixed). -/
 def deEventsAt : Nat → List QEv → List Ev
   | _, [] => []
@@ -925,6 +940,7 @@ def deEventsAt : Nat → List QEv → List Ev
     else .text raw :: deEventsAt d t
   | d, .cdata c :: t => if d = 0 then [.bad .invalidContent] else .cdata c :: deEventsAt d t
   | _, .err :: _ => [.bad .invalidXml]
+  | d, .pi c :: t => if piTargetOk c then deEventsAt d t else [.bad .invalidContent]
   | d, _ :: t => deEventsAt d t
 
 /-- the events of a whole document: the reader starts outside every element -/
